@@ -295,6 +295,7 @@ class HistoryGen:
         self.p_bcopy = r.choice([0.0, 0.0, 0.2])
         self.p_hdl = r.choice([0.0, 0.0, 0.1, 0.3])
         self.p_sub = r.choice([0.0, 0.0, 0.2, 0.5])
+        self.p_load = r.choice([0.0, 0.0, 0.15, 0.4])
 
     def _cmd(self, d):
         if self.h is not None:
@@ -384,6 +385,27 @@ class HistoryGen:
         out.append(self._cmd({"op": "bopen"}))
         self.batch_present = dict(self.present)
         k = rng.randint(0, self.batch_len)
+        if len(self.pool) <= 40 and rng.random() < self.p_load:
+            # a bulk load: the batch first stores most of the pool (in a mirrored pool whole
+            # identical sub-tries come into being inside the batch), then goes on mutating
+            plen = getattr(self.pool, "mirror", None)
+            keep = 1.0 if plen is not None else rng.choice([0.6, 0.8, 1.0])
+            for key in self.pool:
+                if key in self.batch_present or rng.random() >= keep:
+                    continue
+                v = self.values[sum(key[plen or 0:]) % len(self.values)]
+                self.batch_present[key] = v
+                out.append(self._cmd({"op": "set", "k": hx(key), "v": hx(v), "via": self._via(), "on": "batch"}))
+            k = max(k, rng.randint(1, 3))
+            saved = self.w
+            self.w = dict(saved, **{"del": saved["del"] * 3 + 1})
+            try:
+                for _ in range(k):
+                    out.append(self.mutation("batch"))
+                    self.lookups_after("batch", out)
+            finally:
+                self.w = saved
+            k = 0
         for _ in range(k):
             out.append(self.mutation("batch"))
             self.lookups_after("batch", out)
